@@ -15,8 +15,8 @@ ASSUMPTIONS = ["coordinates do not overflow usize"]
 
 def run(F, rep):
     rep.engines.update(["E2-DT", "affine", "E1"])
-    dt_seq.slice_view_tables(F, rep, "C15.4")
-    dt_seq.dnastring_view_ctors(F, rep, "C15.4")
-    dt_seq.slice_renderers(F, rep, "C15.1")
-    lemmas.slice_exact_lemmas(F, rep, "C15.1", quick=(rep.tier != "thorough"))
-    dt_seq.hamming_dist_table(F, rep, "C15.2")
+    rep.run(dt_seq.slice_view_tables, F, rep, "C15.4")
+    rep.run(dt_seq.dnastring_view_ctors, F, rep, "C15.4")
+    rep.run(dt_seq.slice_renderers, F, rep, "C15.1")
+    rep.run(lemmas.slice_exact_lemmas, F, rep, "C15.1", quick=(rep.tier != "thorough"))
+    rep.run(dt_seq.hamming_dist_table, F, rep, "C15.2")
